@@ -198,6 +198,11 @@ type SchedBuildArg struct {
 	Bound   int       `json:"bound"`
 	MaxExec int       `json:"max_exec"`
 	Probes  []string  `json:"probes"`
+	// FailFetch: the fetch of this package fails, whichever thread asks for it. There is no
+	// sequential result to compare with (which call reports the failure depends on the
+	// schedule); the invariants are: nothing is created outside the target directory, a call
+	// that starts after a failure refuses, and no bundle comes out.
+	FailFetch string `json:"fail_fetch,omitempty"`
 }
 
 func obsOfBundle(out *BuildOut) string {
@@ -233,8 +238,20 @@ func schedBuildHandler(raw json.RawMessage) (any, error) {
 		defer core.RemoveArena(base)
 		target := filepath.Join(base, "around", "target")
 		os.MkdirAll(target, 0755)
-		e := &env{around: filepath.Join(base, "around")}
+		e := &env{around: filepath.Join(base, "around"), failFetch: arg.FailFetch}
 		e.hook = func(label string) { vsync.Point("cb:" + strings.SplitN(label, " ", 2)[0]) }
+		if arg.FailFetch != "" {
+			// anything written relative to the working directory or into the default
+			// temporary directory lands in two empty directories that are inspected afterwards
+			cwd, tmp := filepath.Join(base, "cwd"), filepath.Join(base, "tmp")
+			os.MkdirAll(cwd, 0755)
+			os.MkdirAll(tmp, 0755)
+			old, _ := os.Getwd()
+			oldTmp := os.Getenv("TMPDIR")
+			os.Chdir(cwd)
+			os.Setenv("TMPDIR", tmp)
+			defer func() { os.Chdir(old); os.Setenv("TMPDIR", oldTmp) }()
+		}
 		log := &callLog{}
 		w := arg.World
 		b, err := sourcebundle.NewBuilder(target, wFetcher{&w, e, log}, wRegistry{&w, e, log})
@@ -275,6 +292,39 @@ func schedBuildHandler(raw json.RawMessage) (any, error) {
 					out.Bundle = describeBundle(bundle, target, arg.Probes)
 				}
 			}()
+		}
+		if arg.FailFetch != "" {
+			viol := ""
+			for _, d := range []string{"cwd", "tmp"} {
+				if ents, _ := os.ReadDir(filepath.Join(base, d)); len(ents) > 0 {
+					var names []string
+					for _, en := range ents {
+						names = append(names, en.Name())
+					}
+					viol += fmt.Sprintf("the build wrote outside its target directory: %v appeared in the %s directory; ", names, map[string]string{"cwd": "working", "tmp": "default temporary"}[d])
+				}
+			}
+			nfail, nquiet := 0, 0
+			for _, a := range out.Adds {
+				switch {
+				case a.HasErrors:
+					nfail++
+				case a.Panic == "":
+					nquiet++
+				}
+			}
+			if nfail == 0 {
+				viol += "the failing fetch was reported by no Add call; "
+			}
+			if out.Bundle != nil {
+				viol += "a bundle came out of a build in which a fetch failed; "
+			}
+			traces[strings.Join(log.Calls, "|")] = true
+			obs := fmt.Sprintf("failing-fetch: adds reporting the error=%d, adds returning quietly=%d, outside writes=%v", nfail, nquiet, viol != "")
+			if first == "" {
+				first = obs
+			}
+			return res, viol, obs
 		}
 		obs := obsOfBundle(&out)
 		// each remote package must have been fetched exactly once whatever the interleaving
@@ -401,12 +451,13 @@ func schedPackHandler(raw json.RawMessage) (any, error) {
 // free-running bodies for the auxiliary -race pass
 
 type RaceArg struct {
-	Share bool       `json:"share,omitempty"`
-	Kind  string     `json:"kind"` // pack | build
-	Steps []PackStep `json:"steps,omitempty"`
-	World World      `json:"world,omitempty"`
-	Adds  []AddCall  `json:"adds,omitempty"`
-	Iter  int        `json:"iter"`
+	Share     bool       `json:"share,omitempty"`
+	Kind      string     `json:"kind"` // pack | build
+	Steps     []PackStep `json:"steps,omitempty"`
+	World     World      `json:"world,omitempty"`
+	Adds      []AddCall  `json:"adds,omitempty"`
+	Iter      int        `json:"iter"`
+	FailFetch string     `json:"fail_fetch,omitempty"`
 }
 
 func raceHandler(raw json.RawMessage) (any, error) {
@@ -434,7 +485,7 @@ func raceHandler(raw json.RawMessage) (any, error) {
 		case "build":
 			target := filepath.Join(base, fmt.Sprintf("b%d", it), "target")
 			os.MkdirAll(target, 0755)
-			e := &env{}
+			e := &env{failFetch: arg.FailFetch}
 			log := &callLog{}
 			w := arg.World
 			b, err := sourcebundle.NewBuilder(target, wFetcher{&w, e, log}, wRegistry{&w, e, log})
@@ -445,6 +496,7 @@ func raceHandler(raw json.RawMessage) (any, error) {
 				wg.Add(1)
 				go func(a AddCall) {
 					defer wg.Done()
+					defer func() { recover() }() // an Add that finds the builder closed panics by design
 					doAdd(context.Background(), b, a, func(id string) sourcebundle.DependencyFinder { return newFinder(id, &w, e, log, false) })
 				}(a)
 			}
